@@ -27,7 +27,7 @@ type engineCrash struct {              // engine bug or unsupported value shape:
 
 func isEnginePanic(p interface{}) bool {
 	switch p.(type) {
-	case abortPath, prunePath, violationPath, endPath, mergeAbort, engineCrash:
+	case abortPath, prunePath, violationPath, endPath, mergeAbort, engineCrash, killGoroutine, deadlockPanic:
 		return true
 	}
 	return false
@@ -145,6 +145,8 @@ type Interp struct {
 	initBusy map[ssa.Value]bool
 	curFrame *frame
 	sites    map[string]int
+	tracked  map[*Value]bool
+	raceReport string
 }
 
 func (fr *frame) get(key ssa.Value) Value {
